@@ -29,6 +29,16 @@ DEFUSE = [
     ("helper-value-partial", ["if self.c:", "    t = helper0(self.a, self.b, self.d)", "self.o2 <<= t"], "reject"),
 ]
 
+# decided by the compile result and the 2-safety query only (constructs outside the reference interpreter)
+NONINTERFERENCE_ONLY = [
+    ("temp-slice-read", ["t = self.a ^ self.b", "self.ov[1:0] <<= t[1:0]", "self.ob <<= t[2]"]),
+    ("temp-bit-read-in-branch", ["t = self.a + self.b", "if t[0]:", "    self.o1 <<= t"]),
+    ("select-no-default", ['self.o1 <<= std.select[Unsigned[3]](self.sel, {"00": self.a, "01": self.b})']),
+    ("select_with-no-default", ['self.o1 <<= select_with(self.sel, {"00": self.a, "11": self.b})']),
+    ("select_with-default", ['self.o1 <<= select_with(self.sel, {"00": self.a, "11": self.b}, default=x)']),
+    ("choose_first", ["self.o1 <<= std.choose_first[Unsigned[3]]((self.c, self.a), (self.d, self.b), default=x)"]),
+]
+
 CORO_DEFUSE = [
     ("coro-cross-state", ["t = self.in0 & self.in1", "await self.in2", "self.trace <<= 1", "if t:", "    self.seen <<= 3"], "reject"),
     ("coro-same-state", ["await self.in2", "t = self.in0 & self.in1", "if t:", "    self.seen <<= 3"], "any"),
@@ -47,6 +57,8 @@ def run(tier: str) -> int:
             jobs.append((key, gen_seq.render(body), RefSeq, exp))
         for key, body, exp in CORO_DEFUSE:
             jobs.append((key, _coro(body), None, exp))
+        for key, body in NONINTERFERENCE_ONLY:
+            jobs.append((key, gen_seq.render(body), None, "any"))
         n_seq = 60 if tier == "quick" else 1200
         n_coro = 80 if tier == "quick" else 800
         for p in gen_seq.programs(tier, rep.seed)[:n_seq]:
